@@ -12,6 +12,7 @@ import (
 	"github.com/jcmturner/gokrb5/v8/keytab"
 	"github.com/jcmturner/gokrb5/v8/types"
 
+	_ "verif/props/pcommon" // non-UTC local time zone for the process
 	"verif/ref/kcrypto"
 	refkt "verif/ref/keytab"
 	"verif/vh"
